@@ -309,3 +309,84 @@ def replay_h_hist(detail):
 
 
 KINDS['h_hist'] = replay_h_hist
+
+
+def replay_h_pair(detail):
+    repo.load()
+    cs = detail['scenario']
+    prop = detail['prop']
+    from py_stringmatching import WhitespaceTokenizer
+    tok = WhitespaceTokenizer(return_set=True)
+    l, r = cs['l'], cs['r']
+    lines = ['%s(measure=%s, threshold=%r, op=%s, allow_empty=%r, allow_missing=%r).filter_pair(%r, %r)' % (
+        cs['filter'], cs['measure'], cs['threshold'], cs['comp_op'], cs['allow_empty'],
+        cs['allow_missing'], l, r)]
+    try:
+        f = scenario.make_filter(cs, tok)
+        dropped = bool(f.filter_pair(l, r))
+    except Exception as e:
+        lines.append('raised %s: %s' % (type(e).__name__, e))
+        return True, '\n'.join(lines)
+    lines.append('-> dropped=%r' % dropped)
+    w = scenario.ConcreteWorld()
+    bad = False
+    if w.missing(l) or w.missing(r):
+        bad = dropped != (not cs['allow_missing'])
+    else:
+        lt, rt = w.tokset(l), w.tokset(r)
+        n, m, o = len(lt), len(rt), ref.overlap_size(lt, rt)
+        measure = cs['measure']
+        lines.append('sizes (%d,%d) overlap %d' % (n, m, o))
+        if cs['filter'] == 'OverlapFilter':
+            keep = bool(l) and bool(r) and bool(ref.OPS[cs['comp_op']](o, cs['threshold']))
+            bad = (dropped == keep)
+        elif n == 0 and m == 0:
+            want = True if measure == 'OVERLAP' else (None if measure == 'EDIT_DISTANCE' else not cs['allow_empty'])
+            bad = want is not None and dropped != want
+        else:
+            if prop == 'C04':
+                bad = bool(n and m and dropped and ref.qualifies(measure, n, m, o, '>=', cs['threshold']))
+                lines.append('score %r vs threshold %r' % (ref.raw_score(measure, n, m, o), cs['threshold']))
+            elif prop == 'C14':
+                if detail.get('clause') == 'counts-alone':
+                    l2 = ' '.join('p%03d' % i for i in range(n))
+                    r2 = ' '.join('q%03d' % i for i in range(m))
+                    d2 = bool(f.filter_pair(l2, r2))
+                    lines.append('unrelated pair with the same counts -> dropped=%r' % d2)
+                    bad = d2 != dropped
+                else:
+                    bad = (o == 0 and not dropped)
+    return bad, '\n'.join(lines)
+
+
+KINDS['h_pair'] = replay_h_pair
+
+
+def replay_h_subset(detail):
+    """PositionFilter.filter_tables vs Prefix/SizeFilter.filter_tables on the real stack."""
+    repo.load()
+    cs = dict(detail['scenario'])
+    cs['with_id'] = True
+    cs['entry'] = 'filter_tables'
+    tries = [add_order_fillers(cs), cs] if detail.get('order') == 'identity' else [cs]
+    text = ''
+    for c in tries:
+        res = {}
+        lines = []
+        for flt in ('PositionFilter', detail['other']):
+            cc = dict(c, filter=flt)
+            L, R = scenario.real_frames(cc)
+            out = scenario.call_entry(cc, L, R, scenario.real_tokenizer(cc))
+            res[flt] = set((int(a), int(b)) for a, b in zip(out['l_id'], out['r_id']))
+            lines.append('%s(%s, %r).filter_tables -> %r' % (flt, cc['measure'], cc['threshold'], sorted(res[flt])))
+        extra = res['PositionFilter'] - res[detail['other']]
+        # ignore filler rows
+        extra = set(p for p in extra if p[1] < 900)
+        lines.append('kept by PositionFilter only: %r' % sorted(extra))
+        text = '\n'.join(lines)
+        if extra:
+            return True, text
+    return False, text
+
+
+KINDS['h_subset'] = replay_h_subset
